@@ -19,6 +19,7 @@ def run_task(task, mod):
     oracles.FAULT["at"] = None
     from engine import fine
     fine.ENABLED["on"] = bool(task["params"].get("fine"))
+    fine.ENABLED["size_mode"] = task["params"].get("size_mode", "real") if task["params"].get("order", "canonical") != "real" else "real"
     net = symnet.family(task["family"])
     skeleton = tuple(task["params"]["skeleton"])
     vs, cs = hist.declare(skeleton, net.n, maxlim=task["params"].get("maxlim", hist.MAXLIM))
